@@ -78,6 +78,7 @@ def one_case(ctx, rng, i):
         kw_k["gcf_k"] = kk
         res, rec = fitlib.fit(idnt, **kw_k)
         out[kk] = (res, rec, idnt, kw_k["params_initial"])
+    out["idnt0"], out["kw"] = idnt0, kw
     return meta, out, p0
 
 
@@ -136,6 +137,14 @@ def run(ctx):
                     ctx.dist.get("plateau=different-dopt (not compared)", 0) + 1
                 continue
         p1, pk = f1["params_fitted"], fk["params_fitted"]
+        # the modulus is only determined by points in contact: a selected interval that lies entirely on the
+        # baseline side of the contact point (possible for the plateau search on mismatch data) leaves E
+        # arbitrary for every k - nothing to compare
+        tip1, used = np.asarray(i1["tip position"]), np.asarray(i1["fit range"]).astype(bool)
+        if int(np.sum(used & (tip1 < p1["contact_point"].value))) < 5:
+            ctx.dist["modulus-not-identifiable (not compared)"] = \
+                ctx.dist.get("modulus-not-identifiable (not compared)", 0) + 1
+            continue
         k = meta["k"]
         p = POWER[meta["model"]]
         scale = 1e-6
@@ -159,6 +168,48 @@ def run(ctx):
         dx = float(np.max(np.abs(np.diff(np.sort(np.asarray(i1['tip position'])))))) * 2.5
         if abs(f1["xmin"] - fk["xmin"]) > dx or abs(f1["xmax"] - fk["xmax"]) > dx:
             bad.append(f"xmin/xmax ({f1['xmin']}, {f1['xmax']}) vs ({fk['xmin']}, {fk['xmax']})")
+        # (1) a signal below the noise leaves the modulus undetermined; (2) on exact data the minimiser is unique
+        # (C01 identifiability), so two runs that both reach chi^2 ~ 0 must agree - but a run that stops in another
+        # local minimum (different chi^2, both in force units) did not reach "the corresponding minimiser"
+        if bad:
+            nused = max(int(np.sum(np.asarray(i1["fit range"]).astype(bool))), 1)
+            fin = np.abs(np.asarray(i1["force"])[np.asarray(i1["fit range"]).astype(bool)])
+            sig = float(np.nanmax(fin) - np.nanmin(fin)) if fin.size else 0.0
+            if meta["noise"] and sig < 200 * meta["noise"]:
+                ctx.dist["low signal-to-noise (not compared)"] = \
+                    ctx.dist.get("low signal-to-noise (not compared)", 0) + 1
+                continue
+            floor = nused * (1e-7 * fmax) ** 2
+            c1, ck = float(f1.get("chi_sqr", 0.0)), float(fk.get("chi_sqr", 0.0))
+            if max(c1, ck) > 2 * min(c1, ck) + floor:
+                ctx.dist["different local minima (not compared)"] = \
+                    ctx.dist.get("different local minima (not compared)", 0) + 1
+                continue
+        if bad and meta["plateau"]:
+            # mismatch data + plateau interval: is the k = 1 fit itself reproducible when its start is moved
+            # by a rounding-level amount?  If not, the optimiser's end point is not a function of the problem
+            # (several minima / flat directions) and two parametrisations cannot be compared.
+            idnt2 = copy.deepcopy(out["idnt0"])
+            kw2 = copy.deepcopy(out["kw"])
+            pp = copy.deepcopy(p0)
+            pp["contact_point"].set(value=pp["contact_point"].value * (1 + 1e-7))
+            pp["E"].set(value=pp["E"].value * (1 + 1e-7))
+            kw2["params_initial"] = pp
+            kw2["gcf_k"] = 1.0
+            r2, _ = fitlib.fit(idnt2, **kw2)
+            f2 = idnt2.fit_properties
+            unstable = r2 != "ok" or not f2.get("success") or \
+                abs(f2["params_fitted"]["contact_point"].value - p1["contact_point"].value) > tol_cp or \
+                abs(f2["params_fitted"]["E"].value - p1["E"].value) > 2e-3 * abs(p1["E"].value)
+            # ... or the two optimiser runs ended in different local minima of the same objective (their chi^2,
+            # both in force units, differ): the corresponding minimiser was not reached by one of them
+            c1, ck = float(f1.get("chi_sqr", 0.0)), float(fk.get("chi_sqr", 0.0))
+            if max(c1, ck) > 2 * min(c1, ck) + 1e-30:
+                unstable = True
+            if unstable:
+                ctx.dist["plateau=ill-conditioned (not compared)"] = \
+                    ctx.dist.get("plateau=ill-conditioned (not compared)", 0) + 1
+                continue
         if bad:
             ctx.violation(f"k-not-equivalent:{meta['mode']}:{'plateau' if meta['plateau'] else meta['range_type']}",
                           f"fit with k={k} is not equivalent to k=1: " + "; ".join(bad), {**rep, "observed": bad})
